@@ -191,13 +191,19 @@ def RoomNode.parse (r : RoomNode) : Except RErr RoomT :=
   | .error e => .error e
   | .ok r1 => addAuths r1 r.authNodes
 
+/-- the references that attach the groups to the room row are signed by administrators at their own date
+    (a group row is re-signed by whoever updates the group, so the reference cannot be tied to the row's author) -/
+def groupsPlacedByAdmins (room : RoomT) (r : RoomNode) : Bool :=
+  r.authEdges.all fun e => room.isAdmin e.author e.cdate
+
 /-- `prepare_new_room`: every entry's author must be an admin at the entry's date in the room
-    parsed from the whole candidate -/
-def prepareNewRoom (r : RoomNode) : Except RErr RoomT :=
+    parsed from the whole candidate; `checkGroupEdges` = the check of the group references is in place -/
+def prepareNewRoom (checkGroupEdges : Bool) (r : RoomNode) : Except RErr RoomT :=
   match r.parse with
   | .error e => .error e
   | .ok room =>
-    if r.adminNodes.all (fun n => room.isAdmin n.author n.mdate) &&
+    if checkGroupEdges && !groupsPlacedByAdmins room r then .error .notAuthorised
+    else if r.adminNodes.all (fun n => room.isAdmin n.author n.mdate) &&
        r.authNodes.all (fun a => room.isAdmin a.node.author a.node.mdate &&
          a.userNodes.all (fun n => room.isAdmin n.author n.mdate) &&
          a.rightNodes.all (fun n => room.isAdmin n.author n.mdate) &&
@@ -210,7 +216,9 @@ def prepareNewRoom (r : RoomNode) : Except RErr RoomT :=
 structure Defects where
   /-- #22 the references that place an entry in a list are only signature-checked: their author,
       label and source entity are never compared with the entry's author and the list
-      (room_node.rs:37-90, 203-277) -/
+      (room_node.rs:37-90, 203-277). The repair (findings/C07-placing-references.patch): every entry needs a
+      reference with its list's label and its owner's entity, signed by the entry's author (`placingOk`); the
+      references room → group are signed by administrators at their date (`groupsPlacedByAdmins`). -/
   placingEdgeUnchecked : Bool
   /-- the candidate's room row replaces the stored one without any author, date or entity check
       (room_node.rs:529, 97-98) -/
@@ -231,6 +239,14 @@ deriving Repr, DecidableEq
     `Defects.beforeFixes`): `roomRowUnchecked`, `newGroupUserAdminUnchecked` (/repo 77018f3),
     `newestFirstRead` (/repo f7a29ff), `duplicateIdsUnchecked` (/repo 846341e). -/
 def Defects.asImplemented : Defects :=
+  { -- findings/C07-placing-references.patch
+    placingEdgeUnchecked := true,
+    roomRowUnchecked := false, newGroupUserAdminUnchecked := false,
+    newestFirstRead := false, duplicateIdsUnchecked := false }
+
+/-- /repo at 846341e, before the repair of the placing references: the value the witnesses
+    `C07_breaks_placingEdge_*` are stated about, so that they stay true whatever `asImplemented` becomes -/
+def Defects.beforeFix : Defects :=
   { placingEdgeUnchecked := true, roomRowUnchecked := false, newGroupUserAdminUnchecked := false,
     newestFirstRead := false, duplicateIdsUnchecked := false }
 
@@ -398,8 +414,9 @@ def checkNewAuths (d : Defects) (room : RoomT) (old : List AuthNode) : List Auth
         | .error e => .error e
         | .ok _ => .ok true
 
-/-- the placing references of a list bind every entry to it: one reference per entry, signed by the
-    entry's author, carrying the list's label and the owner's entity (the intended check) -/
+/-- the placing references of a list bind every entry to it: a reference per entry, signed by the
+    entry's author, carrying the list's label and the owner's entity (the intended check; with as many
+    references as entries, all arriving at entries of the list, and distinct entry ids: exactly one) -/
 def placingOk (ownerEnt label : Nat) (edges : List PEdge) (nodes : List SRow) : Bool :=
   nodes.all fun n => edges.any fun e => e.dst = n.id && e.author = n.author && e.label = label && e.srcEnt = ownerEnt
 
@@ -407,10 +424,13 @@ def AuthNode.placingOk (a : AuthNode) : Bool :=
   RoomNode.placingOk 101 33 a.rightEdges a.rightNodes && RoomNode.placingOk 101 34 a.userEdges a.userNodes &&
   RoomNode.placingOk 101 35 a.userAdminEdges a.userAdminNodes
 
+/-- the group rows are attached with the right label and source entity; their references are not tied to the
+    row's author (a group row is re-signed on every update of the group) but to the administrators
+    (`groupsPlacedByAdmins`, checked where the room is at hand) -/
 def RoomNode.placingOk (r : RoomNode) : Bool :=
   Discret.RoomNode.placingOk 100 32 r.adminEdges r.adminNodes &&
   r.authNodes.all fun a =>
-    a.placingOk && r.authEdges.any fun e => e.dst = a.node.id && e.author = a.node.author && e.label = 33 && e.srcEnt = 100
+    a.placingOk && r.authEdges.any fun e => e.dst = a.node.id && e.label = 33 && e.srcEnt = 100
 
 /-- the candidate after the merge: its own room row (to be written over the stored slot), the stored
     references pushed and sorted by date, the merged and sorted admin entries, the merged groups -/
@@ -442,6 +462,7 @@ def prepareWithHistory (d : Defects) (room : RoomT) (old cand : RoomNode) : Opti
     match checkNewAdmins old.adminNodes room (sortAsc (·.mdate) a0) with
     | .error e => some (.error e)
     | .ok room1 =>
+      if !d.placingEdgeUnchecked && !groupsPlacedByAdmins room1 cand then some (.error .notAuthorised) else
       match mergeAuths room1 old.authNodes cand.authNodes ((sortAsc (·.mdate) a0).any (isNew old.adminNodes)) with
       | none => none
       | some (.error e) => some (.error e)
@@ -592,7 +613,7 @@ def accept (d : Defects) (s : RStore) (cand : RoomNode) : Verdict :=
             | .error e => .err e
           else .ok s
     | none =>
-      match prepareNewRoom cand with
+      match prepareNewRoom (!d.placingEdgeUnchecked) cand with
       | .error e => .err e
       | .ok r => .ok (installRoom (writeRoom s cand) r)
 
